@@ -255,6 +255,41 @@ def cases(prop, tier, hosts=None):
                        + (["run"] if not m.faults else [])}
 
 
+def machine_stats(prop, tier):
+    """what the reference model went through for the sequences judged by `prop`: sequences, statements executed by the model
+    (transitions) and distinct model states (the stack of scopes before each statement, with mutability / type / value of v)"""
+    if tier == "quick":
+        nmax, depth, blocks = 4, 1, BLOCKS_QUICK
+    else:
+        return {}   # the thorough enumeration is not repeated for statistics
+    states, transitions, nseq = set(), 0, 0
+
+    def walk(seq, stack):
+        nonlocal transitions
+        for st in seq:
+            states.add(tuple(tuple(sorted((k, tuple(v)) for k, v in sc.items())) for sc in stack))
+            transitions += 1
+            if isinstance(st, tuple):
+                stack.append({})
+                walk(st[1], stack)
+                stack.pop()
+            elif st in "DFSGN":
+                stack[-1]["v"] = {"D": [True, "Int", "1"], "F": [False, "Int", "2"], "S": [True, "Str", "s"], "G": [False, "Int", None], "N": [True, "Int", None]}[st]
+            elif st == "A":
+                for sc in reversed(stack):
+                    if "v" in sc:
+                        if sc["v"][0] and sc["v"][1] == "Int":
+                            sc["v"] = [True, "Int", "3"]
+                        break
+
+    for total in range(1, nmax + 1):
+        for seq in sequences(total, depth, blocks):
+            nseq += 1
+            walk(seq, [{}])
+    return {"scope_machine": {"sequences_enumerated": nseq, "model_transitions": transitions, "distinct_model_states": len(states),
+                              "alphabet": "D F S G N A U T + blocks " + blocks, "bound": "<= %d statements, nesting <= %d" % (nmax, depth)}}
+
+
 if __name__ == "__main__":
     import sys
     import collections
